@@ -22,3 +22,16 @@ func TestSys(t *testing.T) {
 	}
 	fmt.Printf("SCENARIOS-RUN %d\n", n)
 }
+
+// TestStore runs store-level operation sequences ($VERIF_IN) against the real memory / Redis stores.
+func TestStore(t *testing.T) {
+	in, out := os.Getenv("VERIF_IN"), os.Getenv("VERIF_OUT")
+	if in == "" || out == "" {
+		t.Skip("VERIF_IN / VERIF_OUT not set")
+	}
+	n, err := runStoreFile(in, out)
+	if err != nil {
+		t.Fatalf("store driver: %v (after %d scenarios)", err, n)
+	}
+	fmt.Printf("SCENARIOS-RUN %d\n", n)
+}
